@@ -457,6 +457,33 @@ func driveC09(args []string) error {
 			}
 		}
 	}
+	// palettes that contain entries which are not valid premultiplied colours (a decoder reads those as black, but the
+	// valid entries around them must survive and the stream must stay decodable): alone, trailing, leading, in between
+	nons := []color.RGBA{{0xff, 0x90, 0xcc, 0x80}, {0x02, 0x4a, 0x8a, 0x00}, {0x01, 0, 0, 0}, {0x80, 0x80, 0x81, 0x80}}
+	for k, nc := range nons {
+		mk := func(f func(p *[64]color.RGBA)) [64]color.RGBA {
+			var p [64]color.RGBA
+			for j := range p {
+				p[j] = black
+			}
+			f(&p)
+			return p
+		}
+		cases := map[string][64]color.RGBA{
+			"only0":    mk(func(p *[64]color.RGBA) { p[0] = nc }),
+			"only63":   mk(func(p *[64]color.RGBA) { p[63] = nc }),
+			"only5":    mk(func(p *[64]color.RGBA) { p[5] = nc }),
+			"trailing": mk(func(p *[64]color.RGBA) { p[0] = color.RGBA{0x40, 0x80, 0xc0, 0xff}; p[1] = nc; p[2] = nc }),
+			"leading":  mk(func(p *[64]color.RGBA) { p[0] = nc; p[1] = color.RGBA{0x10, 0x20, 0x30, 0x40} }),
+			"between":  mk(func(p *[64]color.RGBA) { p[3] = color.RGBA{1, 2, 3, 0xff}; p[4] = nc; p[9] = color.RGBA{0x33, 0x88, 0, 0xff} }),
+			"all":      mk(func(p *[64]color.RGBA) { for j := range p { p[j] = nc } }),
+		}
+		for _, name := range []string{"only0", "only63", "only5", "trailing", "leading", "between", "all"} {
+			if err := palette(fmt.Sprintf("nonsense/%d/%s", k, name), cases[name]); err != nil {
+				return err
+			}
+		}
+	}
 	// the default palette with a single entry changed, at every index
 	for at := 0; at < 64; at++ {
 		var p [64]color.RGBA
